@@ -58,7 +58,9 @@ def gen_op(rng, ref, i):
     dt = rng.randint(1, 30) if rng.random() < 0.85 else rng.choice([200, 450, 700, 1200])
     if r < 0.50:
         ver = 0
-        if rng.random() < 0.45:
+        if e and e["ver"] > 0 and rng.random() < 0.6:
+            ver = max(1, e["ver"] + rng.choice([-1, 0, 0, 1]))       # at / just below / just above the stored version
+        elif rng.random() < 0.45:
             ver = max(0, (e["ver"] if e else 2) + rng.choice([-1, 0, 1, 1, 2]))
         vep = 0 if rng.random() < 0.5 else (e["vep"] if e and rng.random() < 0.6 else rng.randint(1, 3))
         cas = "-" if rng.random() < 0.65 else pick_pos(rng, ref, ch, key)
@@ -133,7 +135,7 @@ def run(ctx):
         ops = json.load(open(ctx.replay)).get("ops", [])
     else:
         corpus = [l.rstrip("\n") for l in open("props/C20/corpus.ops") if l.strip() and not l.startswith("#")]
-        n = ctx.scale(1200, 40000)
+        n = ctx.scale(1200, 12000)
         ops = list(corpus)
         for _ in range(n):
             ops += gen_scenario(ctx.rng, 40)
